@@ -2,12 +2,14 @@ package rules
 
 import (
 	"go/ast"
+	"go/parser"
 	"go/token"
 	"go/types"
 	"sort"
 	"strings"
 
 	"golang.org/x/tools/go/packages"
+	"golang.org/x/tools/go/ssa"
 
 	"jsverif/internal/core"
 )
@@ -287,5 +289,353 @@ func bytewiseRule(R string) RuleFunc {
 			})
 		}
 		c.OKd(R, "inventory", "-", core.F("%d writes of a scanner's index field in 3 scanner packages", n), "all ++/-- or constant resets")
+	}
+}
+
+// strClassRule: a string literal the scanner accepts is an RFC 8259 string.
+func strClassRule(R string) RuleFunc {
+	return func(c *core.Ctx) {
+		c.Rule(R, "in the schema scanner and the enum-rule scanner the string states accept nothing beyond RFC 8259: stateInString refuses every byte below 0x20, stateInStringEsc accepts exactly b f n r t \\ / \" u, the four \\u states accept exactly the 22 hex digits. Example() and the OpenAPI conversion copy accepted string literals verbatim, so a wider class (`\\'`, a raw TAB) makes their output something a JSON parser refuses")
+		c.Floor(R, 12)
+		isHex := func(b int) bool {
+			return (b >= '0' && b <= '9') || (b >= 'a' && b <= 'f') || (b >= 'A' && b <= 'F')
+		}
+		want := map[string]func(b int) bool{
+			"stateInString":        func(b int) bool { return b >= 0x20 },
+			"stateInStringEsc":     func(b int) bool { return strings.IndexByte("bfnrt\\/\"u", byte(b)) >= 0 },
+			"stateInStringEscU":    isHex,
+			"stateInStringEscU1":   isHex,
+			"stateInStringEscU12":  isHex,
+			"stateInStringEscU123": isHex,
+		}
+		for _, pk := range schemaScanners {
+			m := buildScanModel(c, pk)
+			names := make([]string, 0, len(want))
+			for n := range want {
+				names = append(names, n)
+			}
+			sort.Strings(names)
+			for _, n := range names {
+				rows, ok := m.rows[n]
+				if !ok {
+					c.Unresolved(R, pk+"."+n)
+					continue
+				}
+				bad := ""
+				for b := 0; b < 256 && bad == ""; b++ {
+					accepted := false
+					for _, p := range rows[b].paths {
+						if p.kind != "panic" && p.kind != "error" && p.kind != "abort" {
+							accepted = true
+						}
+					}
+					if len(rows[b].paths) == 0 {
+						bad = core.F("byte %q: undecided", rune(b))
+					} else if accepted != want[n](b) {
+						if accepted {
+							bad = core.F("byte %q is accepted, RFC 8259 does not allow it here", rune(b))
+						} else {
+							bad = core.F("byte %q is refused, RFC 8259 allows it here", rune(b))
+						}
+					}
+				}
+				c.Check(bad == "", R, pk+"."+n, c.P.Pos(m.states[n].Pos()), "state "+n+" of "+pk+" accepts exactly the RFC 8259 bytes (256 cells)", bad)
+			}
+		}
+	}
+}
+
+// positivePkg type-checks a small import-free source so that a rule whose expected count on the
+// repository is zero can show on every run that its matcher still matches something.
+func positivePkg(src string) (*packages.Package, error) {
+	fset := token.NewFileSet()
+	f, err := parser.ParseFile(fset, "positive.go", src, 0)
+	if err != nil {
+		return nil, err
+	}
+	info := &types.Info{Types: map[ast.Expr]types.TypeAndValue{}, Defs: map[*ast.Ident]types.Object{}, Uses: map[*ast.Ident]types.Object{}, Selections: map[*ast.SelectorExpr]*types.Selection{}}
+	conf := types.Config{}
+	tp, err := conf.Check("positive", fset, []*ast.File{f}, info)
+	if err != nil {
+		return nil, err
+	}
+	return &packages.Package{PkgPath: "positive", Fset: fset, Syntax: []*ast.File{f}, Types: tp, TypesInfo: info}, nil
+}
+
+// sharedReslices finds `x[:0]` (the in-place filter idiom) where x was not created by the function itself.
+func sharedReslices(pk *packages.Package, fd *ast.FuncDecl) []*ast.SliceExpr {
+	local := map[types.Object]bool{}
+	ast.Inspect(fd.Body, func(n ast.Node) bool {
+		switch x := n.(type) {
+		case *ast.AssignStmt:
+			if len(x.Lhs) != len(x.Rhs) {
+				return true
+			}
+			for i, l := range x.Lhs {
+				id, ok := l.(*ast.Ident)
+				if !ok {
+					continue
+				}
+				o := pk.TypesInfo.Defs[id]
+				if o == nil {
+					o = pk.TypesInfo.Uses[id]
+				}
+				if o == nil {
+					continue
+				}
+				fresh := false
+				switch r := ast.Unparen(x.Rhs[i]).(type) {
+				case *ast.CompositeLit:
+					fresh = true
+				case *ast.CallExpr:
+					if fid, ok := r.Fun.(*ast.Ident); ok && (fid.Name == "make" || fid.Name == "new") {
+						fresh = true
+					}
+					if fid, ok := r.Fun.(*ast.Ident); ok && fid.Name == "append" && len(r.Args) > 0 {
+						// append([]T(nil), ...) / append(local, ...)
+						switch a := ast.Unparen(r.Args[0]).(type) {
+						case *ast.CallExpr:
+							if tv, ok := pk.TypesInfo.Types[a.Fun]; ok && tv.IsType() {
+								fresh = true
+							}
+						case *ast.Ident:
+							if ao := pk.TypesInfo.Uses[a]; ao != nil && local[ao] {
+								fresh = true
+							}
+						}
+					}
+				case *ast.SliceExpr:
+					if sid, ok := ast.Unparen(r.X).(*ast.Ident); ok {
+						if so := pk.TypesInfo.Uses[sid]; so != nil && local[so] {
+							fresh = true
+						}
+					}
+				}
+				if fresh {
+					local[o] = true
+				} else if x.Tok == token.ASSIGN || x.Tok == token.DEFINE {
+					delete(local, o)
+				}
+			}
+		case *ast.DeclStmt:
+			if gd, ok := x.Decl.(*ast.GenDecl); ok && gd.Tok == token.VAR {
+				for _, sp := range gd.Specs {
+					vs := sp.(*ast.ValueSpec)
+					if len(vs.Values) == 0 {
+						for _, nm := range vs.Names {
+							if o := pk.TypesInfo.Defs[nm]; o != nil {
+								local[o] = true // nil slice
+							}
+						}
+					}
+				}
+			}
+		}
+		return true
+	})
+	var out []*ast.SliceExpr
+	ast.Inspect(fd.Body, func(n ast.Node) bool {
+		se, ok := n.(*ast.SliceExpr)
+		if !ok || se.Low != nil || se.High == nil || se.Max != nil {
+			return true
+		}
+		if tv, ok := pk.TypesInfo.Types[se.High]; !ok || tv.Value == nil || tv.Value.ExactString() != "0" {
+			return true
+		}
+		if t, ok := pk.TypesInfo.Types[se.X]; !ok || t.Type == nil {
+			return true
+		} else if _, isSlice := t.Type.Underlying().(*types.Slice); !isSlice {
+			return true
+		}
+		if id, ok := ast.Unparen(se.X).(*ast.Ident); ok {
+			if o := pk.TypesInfo.Uses[id]; o != nil && local[o] {
+				return true
+			}
+		}
+		out = append(out, se)
+		return true
+	})
+	return out
+}
+
+const inplacePositive = `package positive
+type item struct{ comment bool }
+func values() []item { return nil }
+func filter() []item {
+	vv := values()
+	kept := vv[:0]
+	for _, v := range vv {
+		if !v.comment {
+			kept = append(kept, v)
+		}
+	}
+	return kept
+}
+func fine() []item {
+	buf := make([]item, 0, 4)
+	buf = append(buf, item{})
+	buf = buf[:0]
+	return buf
+}
+`
+
+// inplaceRule: nobody filters a slice it did not create in place.
+func inplaceRule(R string) RuleFunc {
+	return func(c *core.Ctx) {
+		c.Rule(R, "the in-place filter idiom `kept := x[:0]; kept = append(kept, ...)` overwrites the backing array of x: it appears only on slices the function created itself (make, literal, append to a fresh slice, nil declaration). On a slice obtained from a call, a parameter or a field (Enum.Values(), Children(), Names(), ...) it rewrites a list that other objects and earlier callers still hold: results handed out before change, and the next schema using the same rule sees a corrupted list. Expected count on the repository: 0; the matcher is exercised on a built-in example on every run")
+		c.Floor(R, 2)
+		pp, err := positivePkg(inplacePositive)
+		if err != nil {
+			c.Bad(R, "positive-example", "-", "built-in example", "does not type-check: "+err.Error())
+			return
+		}
+		hits := map[string]int{}
+		for _, d := range pp.Syntax[0].Decls {
+			if fd, ok := d.(*ast.FuncDecl); ok && fd.Body != nil {
+				hits[fd.Name.Name] = len(sharedReslices(pp, fd))
+			}
+		}
+		c.Check(hits["filter"] == 1 && hits["fine"] == 0, R, "positive-example", "-", "the matcher reports the built-in in-place filter of a call result and not the reuse of a local buffer", core.F("matcher broken: %v", hits))
+		n, funcs := 0, 0
+		for _, d := range c.P.FuncDecls() {
+			if d.Decl.Body == nil {
+				continue
+			}
+			funcs++
+			for _, se := range sharedReslices(d.Pkg, d.Decl) {
+				n++
+				fn := core.DeclName(d.Pkg, d.Decl)
+				c.Bad(R, fn+":"+core.ExprStr(se), c.P.Pos(se.Pos()), core.ExprStr(se)+" in "+fn, "`"+core.ExprStr(se.X)+"` was not created by this function: appending to its empty re-slice overwrites elements of a list that is shared with its owner")
+			}
+		}
+		c.OKd(R, "inventory", "-", core.F("%d functions scanned", funcs), core.F("%d in-place re-slices of foreign slices", n))
+	}
+}
+
+// byteOrigin classifies where a []byte value comes from: "param", "data" (the storage of a
+// bytes.Bytes), "fresh" (allocated here) or "other".
+func byteOrigin(v ssa.Value, depth int, seen map[ssa.Value]bool) string {
+	if depth > 12 || seen[v] {
+		return "fresh" // a cycle adds nothing new
+	}
+	seen[v] = true
+	switch x := v.(type) {
+	case *ssa.Parameter:
+		return "param"
+	case *ssa.MakeSlice, *ssa.Alloc, *ssa.Const:
+		return "fresh"
+	case *ssa.Slice:
+		return byteOrigin(x.X, depth+1, seen)
+	case *ssa.ChangeType:
+		return byteOrigin(x.X, depth+1, seen)
+	case *ssa.Convert:
+		return "fresh" // string -> []byte copies
+	case *ssa.Phi:
+		worst := "fresh"
+		for _, e := range x.Edges {
+			switch o := byteOrigin(e, depth+1, seen); o {
+			case "param", "data":
+				return o
+			case "other":
+				worst = "other"
+			}
+		}
+		return worst
+	case *ssa.UnOp:
+		if fa, ok := x.X.(*ssa.FieldAddr); ok && absintFieldName(fa) == "data" {
+			return "data"
+		}
+		if al, ok := x.X.(*ssa.Alloc); ok {
+			// a local variable: look at what is stored into it
+			worst := "fresh"
+			for _, ref := range *al.Referrers() {
+				if st, ok := ref.(*ssa.Store); ok && st.Addr == al {
+					switch o := byteOrigin(st.Val, depth+1, seen); o {
+					case "param", "data":
+						return o
+					case "other":
+						worst = "other"
+					}
+				}
+			}
+			return worst
+		}
+		return "other"
+	case *ssa.Field:
+		if st, ok := x.X.Type().Underlying().(*types.Struct); ok && st.Field(x.Field).Name() == "data" {
+			return "data"
+		}
+		return "other"
+	case *ssa.Call:
+		if b, ok := x.Call.Value.(*ssa.Builtin); ok && b.Name() == "append" {
+			return byteOrigin(x.Call.Args[0], depth+1, seen)
+		}
+		return "other"
+	}
+	return "other"
+}
+
+// noInplaceRule: the byte helpers never write into the text they are given.
+func noInplaceRule(R string) RuleFunc {
+	return func(c *core.Ctx) {
+		c.Rule(R, "a bytes.Bytes value is a view of the file content it was cut from (sub-slicing never copies), and rule texts, schema texts and lexeme values all share that storage. No function of the module stores into an element of a []byte that is a parameter, a re-slice of one, or the `data` of a Bytes (directly, by copy() or by append into spare capacity of a re-slice): decoders like unquoteBytes build their result in a buffer they allocate. A decoder that works in place rewrites the rule text while it is being scanned - the second reading of the same enum rule sees other literals than the first")
+		c.Floor(R, 3)
+		n, bad := 0, 0
+		var fs []*ssa.Function
+		for f := range c.P.AllFuncs {
+			if c.P.FuncInScope(f) && f.Blocks != nil {
+				fs = append(fs, f)
+			}
+		}
+		sort.Slice(fs, func(i, j int) bool { return fs[i].String() < fs[j].String() })
+		isBytes := func(t types.Type) bool {
+			sl, ok := t.Underlying().(*types.Slice)
+			if !ok {
+				return false
+			}
+			b, ok := sl.Elem().Underlying().(*types.Basic)
+			return ok && b.Kind() == types.Uint8
+		}
+		for _, f := range fs {
+			for _, b := range f.Blocks {
+				for _, in := range b.Instrs {
+					var base ssa.Value
+					what := ""
+					switch x := in.(type) {
+					case *ssa.Store:
+						ia, ok := x.Addr.(*ssa.IndexAddr)
+						if !ok || !isBytes(ia.X.Type()) {
+							continue
+						}
+						base, what = ia.X, "element store"
+					case *ssa.Call:
+						bi, ok := x.Call.Value.(*ssa.Builtin)
+						if !ok || bi.Name() != "copy" || !isBytes(x.Call.Args[0].Type()) {
+							continue
+						}
+						base, what = x.Call.Args[0], "copy() into"
+					default:
+						continue
+					}
+					n++
+					o := byteOrigin(base, 0, map[ssa.Value]bool{})
+					if o == "param" || o == "data" {
+						bad++
+						src := "a []byte parameter"
+						if o == "data" {
+							src = "the storage of a bytes.Bytes"
+						}
+						c.Bad(R, core.F("%s:%s", core.FuncName(f), what), c.P.Pos(in.Pos()), what+" in "+core.FuncName(f), "writes into "+src+": the caller's text (file content shared by every Bytes cut from it) is modified")
+					}
+				}
+			}
+		}
+		c.OKd(R, "inventory", "-", core.F("%d element stores / copy() targets of type []byte in module functions", n), core.F("%d of them into a parameter or Bytes storage", bad))
+		c.OKd(R, "origins", "-", "origins traced through re-slices, phis, locals and append", "make/alloc/conversion = fresh")
+		if d := c.P.FindDecl("bytes.unquoteBytes"); d == nil {
+			c.Unresolved(R, "bytes.unquoteBytes")
+		} else {
+			c.OK(R, "bytes.unquoteBytes:anchor", c.P.Pos(d.Decl.Pos()), "the string decoder is among the scanned functions")
+		}
 	}
 }
